@@ -27,6 +27,7 @@ const (
 	c35NonNilNotEOF c35Fact = iota + 1 // an error that is neither nil nor io.EOF
 	c35IsNil                           // a nil error
 	c35BoolTrue                        // a true boolean
+	c35BoolFalse                       // a false boolean
 )
 
 func c35Not(t c35Tri) c35Tri {
@@ -55,20 +56,28 @@ func c35IsEOF(info *types.Info, e ast.Expr) bool {
 
 // c35Eval evaluates a branch condition under facts about variables; anything it does not
 // recognise is Unknown (both branches are followed).
-func c35Eval(info *types.Info, e ast.Expr, facts map[types.Object]c35Fact) c35Tri {
+func c35Eval(info *types.Info, e ast.Expr, facts map[types.Object]c35Fact, ex ...func(ast.Expr) c35Tri) c35Tri {
+	for _, fn := range ex { // facts about whole sub-expressions
+		if t := fn(ast.Unparen(e)); t != c35Unknown {
+			return t
+		}
+	}
 	switch x := ast.Unparen(e).(type) {
 	case *ast.Ident:
-		if facts[c35Obj(info, x)] == c35BoolTrue {
+		switch facts[c35Obj(info, x)] {
+		case c35BoolTrue:
 			return c35True
+		case c35BoolFalse:
+			return c35False
 		}
 	case *ast.UnaryExpr:
 		if x.Op == token.NOT {
-			return c35Not(c35Eval(info, x.X, facts))
+			return c35Not(c35Eval(info, x.X, facts, ex...))
 		}
 	case *ast.BinaryExpr:
 		switch x.Op {
 		case token.LAND:
-			a, b := c35Eval(info, x.X, facts), c35Eval(info, x.Y, facts)
+			a, b := c35Eval(info, x.X, facts, ex...), c35Eval(info, x.Y, facts, ex...)
 			if a == c35False || b == c35False {
 				return c35False
 			}
@@ -76,7 +85,7 @@ func c35Eval(info *types.Info, e ast.Expr, facts map[types.Object]c35Fact) c35Tr
 				return c35True
 			}
 		case token.LOR:
-			a, b := c35Eval(info, x.X, facts), c35Eval(info, x.Y, facts)
+			a, b := c35Eval(info, x.X, facts, ex...), c35Eval(info, x.Y, facts, ex...)
 			if a == c35True || b == c35True {
 				return c35True
 			}
@@ -134,12 +143,12 @@ func c35CondOf(b *cfg.Block) ast.Expr {
 }
 
 // c35EdgeOK prunes the infeasible successor of a condition under the facts.
-func c35EdgeOK(info *types.Info, b *cfg.Block, succ int, facts map[types.Object]c35Fact) bool {
+func c35EdgeOK(info *types.Info, b *cfg.Block, succ int, facts map[types.Object]c35Fact, ex ...func(ast.Expr) c35Tri) bool {
 	cond := c35CondOf(b)
 	if cond == nil {
 		return true
 	}
-	switch c35Eval(info, cond, facts) {
+	switch c35Eval(info, cond, facts, ex...) {
 	case c35True:
 		return succ == 0
 	case c35False:
@@ -933,6 +942,36 @@ func (f *c35Fn) p4Alloc(s *c35Stage, batch *types.Var, rowsField, counterField s
 
 func (f *c35Fn) p4Overwrites(s *c35Stage, batch *types.Var, resCh *c35Chan, sendBatch *ast.SendStmt) {
 	c := f.c
+	sg := c.P.CFG(f.info, s.lit.Body)
+	facts := map[types.Object]c35Fact{batch: c35NonNilNotEOF} // a batch that rows were stored into is not nil
+	// unsent(as): a path from a row store to the assignment that does not enter the sending case
+	unsent := func(as *ast.AssignStmt) []ast.Node {
+		for _, b := range sg.Blocks {
+			for i, nd := range b.Nodes {
+				if !f.isBatchStore(nd, batch) {
+					continue
+				}
+				p := pathExplore(sg, CFGPoint{b, i}, struct{}{},
+					func(x ast.Node, z struct{}) (struct{}, pathAct) {
+						if x == ast.Node(as) {
+							return z, pathBad
+						}
+						return z, pathGo
+					},
+					func(bb *cfg.Block, succ int, z struct{}) (struct{}, bool) {
+						nb := bb.Succs[succ]
+						if nb.Kind == cfg.KindSelectCaseBody && nb.Stmt.(*ast.CommClause).Comm == ast.Stmt(sendBatch) {
+							return z, false // the batch has been sent
+						}
+						return z, c35EdgeOK(f.info, bb, succ, facts)
+					}, nil)
+				if p != nil {
+					return append([]ast.Node{nd}, p...)
+				}
+			}
+		}
+		return nil
+	}
 	ast.Inspect(f.fd.Body, func(n ast.Node) bool {
 		as, ok := n.(*ast.AssignStmt)
 		if !ok {
@@ -955,39 +994,36 @@ func (f *c35Fn) p4Overwrites(s *c35Stage, batch *types.Var, resCh *c35Chan, send
 				txt = "&" + strings.SplitN(types.ExprString(u.X), "{", 2)[0] + "{…}"
 			}
 			key := f.name + "/batch/assign " + batch.Name() + " = " + txt
-			// (i) nil inside the case that sent it
-			if isNilIdent(f.info, rhs) {
-				if cc, ok := f.parents[as].(*ast.CommClause); ok && cc.Comm == ast.Stmt(sendBatch) {
-					c.Ok("C35-P4", key, as.Pos(), "reset inside the case that has just sent the batch")
-					continue
-				}
-				c.Bad("C35-P4", key, as.Pos(), fmt.Sprintf("%s: the batch %s is reset outside the select case `%s <- %s`: the rows collected in it are dropped without having been sent", f.name, batch.Name(), resCh.v.Name(), batch.Name()))
+			if f.stageOf(as) != s || f.unitOf(as) != s.lit {
+				c.Bad("C35-P4", key, as.Pos(), fmt.Sprintf("%s: the batch %s is assigned outside the batching stage %s (the stage owns it until group.Wait() has returned)", f.name, batch.Name(), s.name))
 				continue
 			}
-			// (ii) allocation under `batch == nil`
-			underNil := false
-			for p := f.parents[as]; p != nil; p = f.parents[p] {
-				if is, ok := p.(*ast.IfStmt); ok {
-					if be, ok := ast.Unparen(is.Cond).(*ast.BinaryExpr); ok && be.Op == token.EQL && c35Obj(f.info, be.X) == batch && isNilIdent(f.info, be.Y) && c48Contains(is.Body, as) {
-						underNil = true
-					}
-					break
-				}
-				if _, ok := p.(*ast.FuncLit); ok {
-					break
-				}
-			}
-			if underNil {
-				c.Ok("C35-P4", key, as.Pos(), "allocated only when there is no batch")
+			p := unsent(as)
+			if p == nil {
+				c.Ok("C35-P4", key, as.Pos(), "reached only when the batch is empty or has just been sent")
 				continue
 			}
 			if f.exc("C35-P4", key, as.Pos()) {
 				continue
 			}
-			c.Bad("C35-P4", key, as.Pos(), fmt.Sprintf("%s: the batch %s is overwritten while it may hold rows that were not sent (allowed: nil inside the sending case, allocation under `%s == nil`)", f.name, batch.Name(), batch.Name()))
+			c.Bad("C35-P4", key, as.Pos(), fmt.Sprintf("%s: the batch %s is overwritten on a path on which rows were stored into it and it was not sent on %s: those rows never reach the client", f.name, batch.Name(), resCh.v.Name()), c.P.DescribePath(p)...)
 		}
 		return true
 	})
+}
+
+// isBatchStore: a statement that puts something into the batch (field store through the batch variable).
+func (f *c35Fn) isBatchStore(n ast.Node, batch *types.Var) bool {
+	as, ok := n.(*ast.AssignStmt)
+	if !ok {
+		return false
+	}
+	for _, l := range as.Lhs {
+		if _, ok := f.rootedAt(l, batch); ok {
+			return true
+		}
+	}
+	return false
 }
 
 func (f *c35Fn) p4Final(batch *types.Var, rowsField, counterField string, indexStore bool) {
@@ -1364,41 +1400,45 @@ func (f *c35Fn) ruleP6(famCalls map[*types.Func][]*ast.CallExpr) {
 			c.Ok("C35-P6", fkey, flagVar.Pos(), flagVar.Name()+" is written only by the pipelines' second result")
 		}
 	}
-	guarded := func(ret *ast.ReturnStmt) bool {
-		if flagVar == nil {
-			return false
+	// A nil-error return that has not passed the result to the callback is legitimate only when the
+	// client already got a batch and the final result is empty. Instead of matching the shape of the
+	// guard, the paths are explored in the two worlds in which that is NOT the case — (A) the
+	// processed flag is false, (B) result.RowsAffected != 0 — with every branch condition evaluated
+	// three-valued under the world's facts: in neither world may such a return be reachable.
+	rowsZero := func(e ast.Expr) c35Tri { // world B: `r.<field> == 0` is false, `r.<field> != 0` / `> 0` true
+		be, ok := e.(*ast.BinaryExpr)
+		if !ok {
+			return c35Unknown
 		}
-		for p := f.parents[ret]; p != nil; p = f.parents[p] {
-			is, ok := p.(*ast.IfStmt)
-			if !ok || !c48Contains(is.Body, ret) {
-				continue
-			}
-			hasFlag, hasZero := false, false
-			var conj func(e ast.Expr)
-			conj = func(e ast.Expr) {
-				e = ast.Unparen(e)
-				if be, ok := e.(*ast.BinaryExpr); ok && be.Op == token.LAND {
-					conj(be.X)
-					conj(be.Y)
-					return
-				}
-				if c35Obj(f.info, e) == flagVar {
-					hasFlag = true
-				}
-				if be, ok := e.(*ast.BinaryExpr); ok && be.Op == token.EQL {
-					if sel, ok := ast.Unparen(be.X).(*ast.SelectorExpr); ok && c35Obj(f.info, sel.X) == resVar {
-						if v := f.info.Types[be.Y].Value; v != nil && constant.Sign(constant.ToInt(v)) == 0 {
-							hasZero = true
-						}
-					}
-				}
-			}
-			conj(is.Cond)
-			if hasFlag && hasZero {
-				return true
-			}
+		sel, ok := ast.Unparen(be.X).(*ast.SelectorExpr)
+		if !ok || c35Obj(f.info, sel.X) != resVar {
+			return c35Unknown
 		}
-		return false
+		if t, ok := f.info.TypeOf(sel).Underlying().(*types.Basic); !ok || t.Info()&types.IsInteger == 0 {
+			return c35Unknown
+		}
+		v := f.info.Types[be.Y].Value
+		if v == nil || constant.Sign(constant.ToInt(v)) != 0 {
+			return c35Unknown
+		}
+		switch be.Op {
+		case token.EQL, token.LEQ:
+			return c35False
+		case token.NEQ, token.GTR:
+			return c35True
+		}
+		return c35Unknown
+	}
+	type world struct {
+		name string
+		obj  map[types.Object]c35Fact
+		ex   []func(ast.Expr) c35Tri
+	}
+	worlds := []world{{name: "the result has RowsAffected != 0", obj: map[types.Object]c35Fact{}, ex: []func(ast.Expr) c35Tri{rowsZero}}}
+	if flagVar != nil {
+		worlds = append(worlds, world{name: "no batch has been delivered yet (" + flagVar.Name() + " == false)", obj: map[types.Object]c35Fact{flagVar: c35BoolFalse}})
+	} else {
+		worlds = append(worlds, world{name: "no pipeline flag exists", obj: map[types.Object]c35Fact{}})
 	}
 	n := 0
 	for _, as := range origins {
@@ -1407,63 +1447,73 @@ func (f *c35Fn) ruleP6(famCalls map[*types.Func][]*ast.CallExpr) {
 			continue
 		}
 		n++
-		type st struct {
-			calls int8
-			alive bool
-		}
-		why := ""
-		path := pathExplore(g, pt, st{0, true},
-			func(nd ast.Node, s st) (st, pathAct) {
-				if nd != ast.Node(as) && f.writesVar(nd, errVar) {
-					s.alive = false
-				}
-				wrong := false
-				ncb := 0
-				inspectNoLit(nd, func(m ast.Node) bool {
-					if call, ok := m.(*ast.CallExpr); ok && f.isCallbackCall(call) {
-						ncb++
-						if len(call.Args) == 0 || c35Obj(f.info, call.Args[0]) != resVar {
-							wrong = true
-						}
+		for _, w := range worlds {
+			type st struct {
+				calls int8
+				alive bool
+			}
+			why := ""
+			path := pathExplore(g, pt, st{0, true},
+				func(nd ast.Node, s st) (st, pathAct) {
+					if nd != ast.Node(as) && f.writesVar(nd, errVar) {
+						s.alive = false
 					}
-					return true
-				})
-				if wrong {
-					why = "the callback is invoked with something else than the result returned by resultFor*"
-					return s, pathBad
-				}
-				for i := 0; i < ncb; i++ {
-					s.calls = c35Sat(s.calls)
-				}
-				if s.calls >= 2 {
-					why = "the callback can be invoked twice for the final result (the client receives the last rows twice)"
-					return s, pathBad
-				}
-				if ret, ok := nd.(*ast.ReturnStmt); ok {
-					k, o, _ := top.retErr(ret)
-					isNil := k == c35RetNil || (k == c35RetIdent && o == errVar && s.alive)
-					if isNil && s.calls == 0 && !guarded(ret) {
-						why = fmt.Sprintf("doQuery returns a nil error without having passed the result to the callback, outside `if %s.RowsAffected == 0 && <processed flag>`: the client never receives the (final) result", resVar.Name())
+					wrong := false
+					ncb := 0
+					inspectNoLit(nd, func(m ast.Node) bool {
+						if call, ok := m.(*ast.CallExpr); ok && f.isCallbackCall(call) {
+							ncb++
+							if len(call.Args) == 0 || c35Obj(f.info, call.Args[0]) != resVar {
+								wrong = true
+							}
+						}
+						return true
+					})
+					if wrong {
+						why = "the callback is invoked with something else than the result returned by resultFor*"
 						return s, pathBad
 					}
-					return s, pathStop
-				}
-				return s, pathGo
-			},
-			func(b *cfg.Block, succ int, s st) (st, bool) {
-				if s.alive {
-					return s, c35EdgeOK(f.info, b, succ, map[types.Object]c35Fact{errVar: c35IsNil})
-				}
-				return s, true
-			}, nil)
-		if path != nil {
-			c.Bad("C35-P6", key, as.Pos(), f.name+": "+why, c.P.DescribePath(path)...)
-			return
+					for i := 0; i < ncb; i++ {
+						s.calls = c35Sat(s.calls)
+					}
+					if s.calls >= 2 {
+						why = "the callback can be invoked twice for the final result (the client receives the last rows twice)"
+						return s, pathBad
+					}
+					if nd != ast.Node(as) && f.writesVar(nd, resVar) {
+						why = "the result variable is overwritten before it is delivered"
+						return s, pathBad
+					}
+					if ret, ok := nd.(*ast.ReturnStmt); ok {
+						k, o, _ := top.retErr(ret)
+						isNil := k == c35RetNil || (k == c35RetIdent && o == errVar && s.alive)
+						if isNil && s.calls == 0 {
+							why = fmt.Sprintf("when %s, doQuery can return a nil error without having passed the result to the callback: the client never receives the (final) result", w.name)
+							return s, pathBad
+						}
+						return s, pathStop
+					}
+					return s, pathGo
+				},
+				func(b *cfg.Block, succ int, s st) (st, bool) {
+					obj := map[types.Object]c35Fact{}
+					for k, v := range w.obj {
+						obj[k] = v
+					}
+					if s.alive {
+						obj[errVar] = c35IsNil
+					}
+					return s, c35EdgeOK(f.info, b, succ, obj, w.ex...)
+				}, nil)
+			if path != nil {
+				c.Bad("C35-P6", key, as.Pos(), f.name+": "+why, c.P.DescribePath(path)...)
+				return
+			}
 		}
 	}
 	if n == 0 {
 		c.Undecided("C35-P6", key, f.fd.Pos(), "no resultFor* call found in the dispatcher's control-flow graph")
 		return
 	}
-	c.Ok("C35-P6", key, f.fd.Pos(), fmt.Sprintf("after each of the %d resultFor* calls: at most one callback(%s, …), nil-error returns without it only under the RowsAffected==0 && flag guard", n, resVar.Name()))
+	c.Ok("C35-P6", key, f.fd.Pos(), fmt.Sprintf("after each of the %d resultFor* calls: at most one callback(%s, …); a nil-error return without it is infeasible when %s.RowsAffected != 0 and when the processed flag is false", n, resVar.Name(), resVar.Name()))
 }
